@@ -739,6 +739,10 @@ type c13Conn struct {
 	firstClose  time.Time
 	clientClose int // Close calls by the client before the peer dropped the connection
 	peerDropped bool
+	hung        bool          // the peer has stopped taking bytes: writes block until the transport is closed
+	others      []byte        // first byte of every packet other than CONNECT/PINGREQ attempted while open
+	closedCh    chan struct{} // closed with the transport
+	closeOnce   sync.Once
 }
 
 // Close is what the library calls; the peer's drop goes to memConn.Close directly.
@@ -754,6 +758,7 @@ func (c *c13Conn) Close() error {
 	}
 	c.mu.Unlock()
 	err := c.memConn.Close()
+	c.closeOnce.Do(func() { close(c.closedCh) })
 	if first {
 		c.brk.emit(c13Ev{"close", c.idx})
 	}
@@ -765,6 +770,7 @@ func (c *c13Conn) drop() {
 	c.peerDropped = true
 	c.mu.Unlock()
 	c.memConn.Close()
+	c.closeOnce.Do(func() { close(c.closedCh) })
 }
 
 type c13Ev struct {
@@ -793,7 +799,7 @@ func (b *c13Broker) emit(e c13Ev) {
 
 func (b *c13Broker) dial(ctx context.Context) (*mqtt.BaseClient, error) {
 	b.mu.Lock()
-	sc := &c13Conn{idx: len(b.conns) + 1, brk: b}
+	sc := &c13Conn{idx: len(b.conns) + 1, brk: b, closedCh: make(chan struct{})}
 	sc.memConn = newMemConn(sc.idx, func(c *memConn, pkt []byte) error { return b.onWrite(sc, pkt) })
 	sc.base = &mqtt.BaseClient{Transport: sc}
 	b.conns = append(b.conns, sc)
@@ -803,6 +809,23 @@ func (b *c13Broker) dial(ctx context.Context) (*mqtt.BaseClient, error) {
 }
 
 func (b *c13Broker) onWrite(sc *c13Conn, pkt []byte) error {
+	if !sc.isClosed() {
+		sc.mu.Lock()
+		hung := sc.hung
+		if t := pkt[0] & 0xF0; t != 0x10 && t != 0xC0 {
+			sc.others = append(sc.others, pkt[0])
+		}
+		sc.mu.Unlock()
+		if hung {
+			// net.Pipe-like: the bytes are never taken; Write returns when the transport is closed
+			// locally (watchdog: the scenario closes it at its end)
+			select {
+			case <-sc.closedCh:
+			case <-time.After(2 * c13SysTO):
+			}
+			return errClosedConn
+		}
+	}
 	switch pkt[0] & 0xF0 {
 	case 0x10:
 		sc.mu.Lock()
@@ -892,7 +915,8 @@ type c13SysRes struct {
 // the broker answers k pings of a connection, then stays silent
 // cancelAfter >= 0: the caller cancels the context it passed to Connect once that many PINGREQs
 // were seen (0: right after Connect returned); -1: it keeps it for the whole scenario.
-func c13SysSilent(interval, timeout time.Duration, k, cancelAfter int) (c13SysRes, error) {
+// hung: after the unanswered PINGREQ the peer does not take any byte either.
+func c13SysSilent(interval, timeout time.Duration, k, cancelAfter int, hung bool) (c13SysRes, error) {
 	victim := 0
 	b := newC13Broker(nil)
 	b.answer = func(c *c13Conn, n int) bool {
@@ -904,6 +928,9 @@ func c13SysSilent(interval, timeout time.Duration, k, cancelAfter int) (c13SysRe
 		}
 		if victim == 0 {
 			victim = c.idx
+		}
+		if hung && c.idx == victim {
+			c.hung = true // c.mu is held by the caller
 		}
 		return false
 	}
@@ -965,20 +992,23 @@ func c13SysSilent(interval, timeout time.Duration, k, cancelAfter int) (c13SysRe
 	}
 	vc.mu.Lock()
 	pings := vc.pings
+	others := append([]byte{}, vc.others...)
 	gap := int64(0)
 	if closed {
 		gap = vc.firstClose.Sub(vc.lastAnswer).Microseconds()
 	}
 	vc.mu.Unlock()
 	errCoq, errDesc := c13ErrOf(vc.base)
+	vc.drop() // releases a writer still blocked on a hung peer
 	ctxD, cancelD := ctxTimeout(5 * time.Second)
 	cli.Disconnect(ctxD)
 	cancelD()
 	return c13SysRes{
-		Coq: fmt.Sprintf("SysSilent %d %d %s %s %s %s %s %s (%s) %d", interval.Microseconds(), timeout.Microseconds(),
-			cNat(k), cOpt(cancelAfter >= 0, cNat(cancelAfter)), cNat(pings), cBool(closed), cBool(redialed), cBool(connected), errCoq, gap),
+		Coq: fmt.Sprintf("SysSilent %d %d %s %s %s %s %s %s %s %s (%s) %d", interval.Microseconds(), timeout.Microseconds(),
+			cNat(k), cOpt(cancelAfter >= 0, cNat(cancelAfter)), cBool(hung), cNat(len(others)), cNat(pings), cBool(closed), cBool(redialed), cBool(connected), errCoq, gap),
 		Desc: map[string]interface{}{"scenario": "broker answers k pings then stays silent", "k": k,
-			"caller_cancels_connect_context_after_pings": cancelAfter,
+			"caller_cancels_connect_context_after_pings": cancelAfter, "peer_also_stops_reading": hung,
+			"other_packets_attempted_on_it_while_open": fmt.Sprintf("%x", others),
 			"interval_us": interval.Microseconds(), "timeout_us": timeout.Microseconds(), "silent_connection": v,
 			"pingreqs_on_it": pings, "client_closed_it": closed, "redialed": redialed, "fresh_connect": connected,
 			"its_Err": errDesc, "close_minus_last_answer_us": gap},
@@ -1319,6 +1349,60 @@ func c13SysDisc(interval, timeout time.Duration, k int) (c13SysRes, error) {
 			"interval_us": interval.Microseconds(), "timeout_us": timeout.Microseconds(), "pingreqs": pings, "dials": dials,
 			"ping_in_flight_reached": reached, "connection_done": done, "Disconnect_error": fmt.Sprint(errD), "Err_after_disconnect": errDesc},
 	}, nil
+}
+
+// c13ProbeBlockedWrite: NOT judged.  The peer stops taking bytes BEFORE a PINGREQ: Ping's own
+// Transport.Write has no deadline, so KeepAlive can neither time out nor be cancelled.  Recorded
+// in the evidence as an observation about the environment assumption "Write returns".
+func c13ProbeBlockedWrite() string {
+	release := make(chan struct{})
+	var n int32
+	conn := newMemConn(1, func(c *memConn, pkt []byte) error {
+		switch pkt[0] & 0xF0 {
+		case 0x10:
+			c.send(connackOK)
+		case 0xC0:
+			if atomic.AddInt32(&n, 1) == 1 {
+				c.send([]byte{0xD0, 0})
+				return nil
+			}
+			<-release
+			return errCut
+		}
+		return nil
+	})
+	cli := &mqtt.BaseClient{Transport: conn}
+	ctx, cancel := ctxTimeout(10 * time.Second)
+	defer cancel()
+	if _, err := cli.Connect(ctx, "c13"); err != nil {
+		return "connect failed: " + err.Error()
+	}
+	pctx, pcancel := context.WithCancel(context.Background())
+	ch := make(chan error, 1)
+	go func() { ch <- mqtt.KeepAlive(pctx, cli, 5*time.Millisecond, 50*time.Millisecond) }()
+	res := ""
+	select {
+	case err := <-ch:
+		_, d := c13Class(err)
+		res = "KeepAlive returned " + d
+	case <-time.After(400 * time.Millisecond):
+		pcancel()
+		select {
+		case err := <-ch:
+			_, d := c13Class(err)
+			res = "blocked 350 ms past its 50 ms timeout; returned " + d + " after its context was cancelled"
+		case <-time.After(200 * time.Millisecond):
+			res = "blocked in Transport.Write: no ErrPingTimeout 350 ms past the 50 ms timeout, and no return 200 ms after its context was cancelled"
+		}
+	}
+	pcancel()
+	close(release)
+	cli.Close()
+	select {
+	case <-ch:
+	case <-time.After(2 * time.Second):
+	}
+	return res
 }
 
 // ---------------------------------------------------------------- driver
@@ -1717,7 +1801,17 @@ func runC13(cfg *runCfg) error {
 	for _, k := range ks {
 		k := k
 		iv := time.Duration(2+r.Intn(3)) * ms
-		sys = append(sys, &sysJob{run: func() (c13SysRes, error) { return c13SysSilent(iv, 250*ms, k, -1) }})
+		sys = append(sys, &sysJob{run: func() (c13SysRes, error) { return c13SysSilent(iv, 250*ms, k, -1, false) }})
+	}
+	// hung peer: reads the PINGREQ, does not answer, takes no further byte
+	hks := []int{0, 2}
+	if !quick && !search {
+		hks = []int{0, 1, 2, 5, 9}
+	}
+	for _, k := range hks {
+		k := k
+		iv := time.Duration(2+r.Intn(3)) * ms
+		sys = append(sys, &sysJob{run: func() (c13SysRes, error) { return c13SysSilent(iv, 250*ms, k, -1, true) }})
 	}
 	// the caller cancels its Connect context after Connect returned: {k, cancel after m pings}
 	ccs := [][2]int{{0, 0}, {3, 0}, {5, 2}, {2, 2}}
@@ -1727,7 +1821,7 @@ func runC13(cfg *runCfg) error {
 	for _, kc := range ccs {
 		kc := kc
 		iv := time.Duration(2+r.Intn(3)) * ms
-		sys = append(sys, &sysJob{run: func() (c13SysRes, error) { return c13SysSilent(iv, 250*ms, kc[0], kc[1]) }})
+		sys = append(sys, &sysJob{run: func() (c13SysRes, error) { return c13SysSilent(iv, 250*ms, kc[0], kc[1], false) }})
 	}
 	sys = append(sys, &sysJob{run: func() (c13SysRes, error) { return c13SysHealthy(5*ms, 5*time.Second, soak) }})
 	sys = append(sys, &sysJob{run: func() (c13SysRes, error) { return c13SysHealthy(2*ms, 5*time.Second, soak) }})
@@ -1771,8 +1865,11 @@ func runC13(cfg *runCfg) error {
 		wgs.Add(1)
 		go func() { defer wgs.Done(); s.res, s.err = s.run() }()
 	}
+	probeCh := make(chan string, 1)
+	go func() { probeCh <- c13ProbeBlockedWrite() }()
 	wg.Wait()
 	wgs.Wait()
+	probe := <-probeCh
 
 	// ---- pace: upper bounds on time ("a ping every interval": not every second tick, and no
 	// drift with the round-trip time).  n pings, each answered after d = 0.3 / 0.8 of a long
@@ -1908,7 +2005,7 @@ func runC13(cfg *runCfg) error {
 	cf.result("M_sys", "c13_sys_mismatches sys_cases")
 	m.Evaluations = len(jobs) - skipped + len(sys) + len(paces)
 	m.DistinctNontrivial = nontrivial
-	m.Rule = fmt.Sprintf("mqtt.KeepAlive driven by a scripted Client: every script up to length %d over {answered at once, answered after half an interval, never answered, failing at once with 3 different errors (two of them wrapping another context's error), parent context Canceled/DeadlineExceeded before/during the ping}, each terminal outcome after 4..%d answered pings, every one of 54 general steps (cancel before x 6 ping behaviours x cancel during) after 0-2 answered pings, %d pairs of them, %d random scripts of up to %d pings incl. non-positive interval/timeout; %d scripts against a real BaseClient over an in-memory transport with a scripted broker, %d more where the broker sends surplus PINGRESPs (duplicates, unsolicited ones between pings) or answers with zero delay (PINGRESP consumed by the reader before Transport.Write returns) before going silent; %d ReconnectClient scenarios (broker silent after k pings, also after the caller cancelled the context it passed to Connect, responsive broker soaked %s then Disconnect, peer drop followed by a healthy connection, Disconnect while a ping is unanswered, PingInterval != Timeout in both directions with an instant and with a slow-but-living broker); two pace runs (6 pings at 200 ms answered after 60 / 160 ms: each must start within 500 ms of its tick and the mean period must be within 15 % of the interval, best of up to three tries); the option-presence sweep over {CONNECT keep-alive, WithPingInterval, WithTimeout} with a healthy and a silent broker each. Non-trivial = distinct script on which the loop returned after at least 2 pings",
+	m.Rule = fmt.Sprintf("mqtt.KeepAlive driven by a scripted Client: every script up to length %d over {answered at once, answered after half an interval, never answered, failing at once with 3 different errors (two of them wrapping another context's error), parent context Canceled/DeadlineExceeded before/during the ping}, each terminal outcome after 4..%d answered pings, every one of 54 general steps (cancel before x 6 ping behaviours x cancel during) after 0-2 answered pings, %d pairs of them, %d random scripts of up to %d pings incl. non-positive interval/timeout; %d scripts against a real BaseClient over an in-memory transport with a scripted broker, %d more where the broker sends surplus PINGRESPs (duplicates, unsolicited ones between pings) or answers with zero delay (PINGRESP consumed by the reader before Transport.Write returns) before going silent; %d ReconnectClient scenarios (broker silent after k pings — mute but reading, or hung: no further byte taken —, also after the caller cancelled the context it passed to Connect, responsive broker soaked %s then Disconnect, peer drop followed by a healthy connection, Disconnect while a ping is unanswered, PingInterval != Timeout in both directions with an instant and with a slow-but-living broker); two pace runs (6 pings at 200 ms answered after 60 / 160 ms: each must start within 500 ms of its tick and the mean period must be within 15 %% of the interval, best of up to three tries); the option-presence sweep over {CONNECT keep-alive, WithPingInterval, WithTimeout} with a healthy and a silent broker each. Non-trivial = distinct script on which the loop returned after at least 2 pings",
 		L, ns[len(ns)-1], nPairs, nRand, maxLen, nBase, nWire, len(sys), soak)
 	m.Distribution["out_scripts"] = nOutEnum
 	m.Distribution["env_scripts"] = nEnv
@@ -1918,6 +2015,7 @@ func runC13(cfg *runCfg) error {
 	m.Distribution["results"] = resKinds
 	m.Distribution["distinct_scripts"] = len(distinct)
 	m.Distribution["max_pings_in_one_run"] = maxPings
+	m.Distribution["not_judged_peer_stops_reading_before_a_pingreq"] = probe
 	m.Distribution["not_run_after_six_stuck_cases"] = skipped
 	m.Exhaustive = !search
 	if err := cf.write(cfg.outDir); err != nil {
